@@ -131,4 +131,6 @@ FlatStr(v) ==
 Predict(line) == [n \in DOMAIN Cfgs |-> FlatStr(RedactMongoLog(Cfgs[n], line))]
 
 EmitCase(tag, line) == PrintT(ToJson([g |-> tag, in |-> Compact(line), p |-> Predict(line)]))
+\* with generator-specific meta data m (e.g. the grammar edges of the path, for coverage accounting)
+EmitCaseM(tag, line, m) == PrintT(ToJson([g |-> tag, in |-> Compact(line), p |-> Predict(line), m |-> m]))
 =============================================================================
